@@ -361,21 +361,24 @@ Definition run_c13 (sub : N) (args : list (list N)) : list N :=
   end.
 
 (* C14: a recorded concurrent history of the Agent and a proposed linearization.
-   1401 <order: call indices> <call> <call> ...   call = [inv; res; |op|; op...; observed ret; observed
-   number of events; observed events...] (op as in 1301).  Result: is the order a permutation of the calls;
+   1401 <order: call indices> <call> <call> ...   call = [inv; res; parent; |op|; op...; observed ret; observed
+   number of events; observed events...] (op as in 1301; parent = 1 + index of the call whose handler made
+   this call, 0 for a call made by the goroutine itself).  Result: is the order a permutation of the calls;
    does it respect real time (no call placed later returned before a call placed earlier was invoked);
+   is every call made from a handler placed after the call that invoked that handler (a handler runs only
+   after the critical section of its call);
    then, for the calls in that order, what the sequential model returns and emits (as in 1301).  The
-   implementation side prints 1 1 and what it observed, so equality of the two lines is [lin_check]. *)
-Definition parse_ocall (f : list N) : option (N * N * aop) :=
+   implementation side prints 1 1 1 and what it observed, so equality of the two lines is [lin_check]. *)
+Definition parse_ocall (f : list N) : option (N * N * N * aop) :=
   match f with
-  | inv :: res :: nop :: rest =>
+  | inv :: res :: parent :: nop :: rest =>
     match parse_aop (take nop rest) with
-    | Some o => Some (inv, res, o)
+    | Some o => Some (inv, res, parent, o)
     | None => None
     end
   | _ => None
   end.
-Fixpoint parse_ocalls (fs : list (list N)) : option (list (N * N * aop)) :=
+Fixpoint parse_ocalls (fs : list (list N)) : option (list (N * N * N * aop)) :=
   match fs with
   | [] => Some []
   | f :: r => match parse_ocall f, parse_ocalls r with
@@ -398,8 +401,10 @@ Definition run_c14 (sub : N) (args : list (list N)) : list N :=
     | None => bad_case
     | Some cs =>
       let sel := flat_map (fun i => match nth_error cs (N.to_nat i) with Some c => [c] | None => [] end) w in
-      let ocs := map (fun '(inv, res, o) => mkOcall inv res o ROk []) sel in
-      [b2n (is_perm_of_range w (lenN cs)); b2n (realtime_ok ocs)] ++ run_seq_obs (new_agent 1) (map (fun '(_, _, o) => o) sel)
+      let ocs := map (fun '(inv, res, _, o) => mkOcall inv res o ROk []) sel in
+      let parents := map (fun '(_, _, p, _) => p) cs in
+      [b2n (is_perm_of_range w (lenN cs)); b2n (realtime_ok ocs); b2n (parents_ok parents w)] ++
+      run_seq_obs (new_agent 1) (map (fun '(_, _, _, o) => o) sel)
     end
   | _, _ => bad_case
   end.
